@@ -65,6 +65,10 @@ pub fn image_of_type(kind: u8, l: L, fa: &[L], fb: &[L]) -> Plain {
 /// the device-side functor defined by a spec
 pub struct SpecFunctor<'a> {
     pub spec: &'a FSpec,
+    /// build the image batch with the library's own segmented-array operations (flatmap_sources,
+    /// Operations::new, tensor_operations) whenever every operation maps to a single operation —
+    /// the way a user-written functor would; otherwise (and when false) on the plain model
+    pub native: bool,
 }
 
 /// decode an operation batch into (label, source labels, target labels)
@@ -101,7 +105,18 @@ where
         B::<K>::seg_labels(&ls.iter().map(|l| self.spec.ob_of(*l)).collect::<Vec<_>>())
     }
     fn map_operations(&self, ops: Operations<K, L, L>) -> OH<K> {
-        let imgs: Vec<Plain> = decode_ops::<K>(&ops).iter().map(|(x, a, b)| self.spec.image(*x, a, b)).collect();
+        let decoded = decode_ops::<K>(&ops);
+        let all_single = !self.spec.kind.is_empty() && decoded.iter().all(|(x, _, _)| self.spec.kind[*x as usize % self.spec.kind.len()] == 0);
+        if self.native && all_single {
+            // relabel every operation and expand its source and target types through the object map
+            let fa = <Self as Functor<K, L, L, L, L>>::map_object(self, &ops.a.values);
+            let fb = <Self as Functor<K, L, L, L, L>>::map_object(self, &ops.b.values);
+            let a2 = ops.a.flatmap_sources(&fa);
+            let b2 = ops.b.flatmap_sources(&fb);
+            let x2 = SemifiniteFunction(K::arr(decoded.iter().map(|(x, _, _)| 10 + *x).collect::<Vec<L>>()));
+            return OH::<K>::tensor_operations(Operations::new(x2, a2, b2).expect("one source and one target type per operation"));
+        }
+        let imgs: Vec<Plain> = decoded.iter().map(|(x, a, b)| self.spec.image(*x, a, b)).collect();
         B::<K>::to_dev(&Plain::tensor_all(&imgs))
     }
     fn map_arrow(&self, f: &OH<K>) -> OH<K> {
